@@ -149,6 +149,9 @@ class Executor:
         if m:
             a, b = split_args(m.group(2))
             val = ("op", m.group(1), self.operand(p, a), self.operand(p, b))
+        elif re.fullmatch(r"(Neg|Not)\((.+)\)", rhs):
+            mm = re.fullmatch(r"(Neg|Not)\((.+)\)", rhs)
+            val = ("un", mm.group(1), self.operand(p, mm.group(2)))
         elif rhs.startswith("discriminant("):
             val = ("discr", self.place(p, rhs[len("discriminant("):-1]))
         elif rhs.startswith("&mut ") or rhs.startswith("&raw "):
@@ -170,6 +173,16 @@ class Executor:
                     k, v = f.split(":", 1)
                     fields[k.strip()] = self.operand(p, v)
             val = ("closure", mm.group(1) if mm else rhs, fields)
+        elif re.fullmatch(r"[^=]*::(Ok|Err|Continue|Break)\((.+)\)", rhs) and not rhs.startswith(("copy ", "move ")):
+            mm = re.fullmatch(r"[^=]*::(Ok|Err|Continue|Break)\((.+)\)", rhs)
+            val = ("agg", mm.group(1), {"0": self.operand(p, mm.group(2))})
+        elif re.fullmatch(r"[\w:]+(::)?<.*> \{.*\}", rhs):
+            mm = re.fullmatch(r"([\w:]+)(?:::)?<.*?> \{(.*)\}", rhs)
+            fields = {}
+            for f in split_args(mm.group(2)):
+                k, v = f.split(":", 1)
+                fields[k.strip()] = self.operand(p, v)
+            val = ("agg", mm.group(1).rstrip(":"), fields)
         elif re.fullmatch(r"[\w:<>', ]+::Some\((.+)\)", rhs):
             val = ("some", self.operand(p, re.fullmatch(r"[\w:<>', ]+::Some\((.+)\)", rhs).group(1)))
         elif re.fullmatch(r"[\w:]+ \{.*\}", rhs):
